@@ -163,11 +163,27 @@ def draw_family(d, tier, names=None, fermionic_only=False):
     return d.draw(st.sampled_from(idx), label='family')
 
 
-def draw_state_desc(d, fam, N, tier, kinds=('random', 'random', 'product', 'from_tensor'), n=None):
+def draw_state_desc(d, fam, N, tier, kinds=('random', 'random', 'product', 'from_tensor', 'product_cyclic'), n=None):
     from hypothesis import strategies as st
     ops, sp, named = family(fam)
     kind = d.draw(st.sampled_from(list(kinds)))
+    if kind == 'product_cyclic' and N < 3:
+        kind = 'product'
     adm = admissible_charges(sp, N)
+    if kind == 'product_cyclic':
+        # product_mps(vectors, N=N) with fewer vectors than sites: the list is repeated cyclically from the first site
+        k = d.draw(st.sampled_from([2, 3] if N > 3 else [2]))
+        tot = lambda occ: list(gsum(sp.sym, [sp.charges[occ[j % k]] for j in range(N)], [1] * N))
+        if n is None:
+            occ = [d.draw(st.integers(0, sp.d - 1)) for _ in range(k)]
+            n = tot(occ)
+        else:       # a prescribed total charge: choose among the short lists that reach it
+            cands = [list(o) for o in itertools.product(range(sp.d), repeat=k) if tot(o) == list(n)]
+            occ = list(d.draw(st.sampled_from(cands))) if cands else None
+        if occ is not None:
+            return {'kind': kind, 'n': list(n), 'seed': 0, 'dtype': d.draw(st.sampled_from(['float64', 'complex128'])), 'occ': occ,
+                    'factor': d.draw(st.sampled_from([1, 1, 0.5, 3]))}
+        kind = 'product'
     if n is None:
         n = list(d.draw(st.sampled_from(adm)))
     desc = {'kind': kind, 'n': list(n), 'seed': d.draw(st.integers(0, 2 ** 16)),
@@ -225,8 +241,9 @@ def build_state(desc, fam, N, extra=None):
             if 'zero state' in str(e) or 'not consistent' in str(e):
                 return None
             raise
-    elif kind == 'product':
-        psi = mps.product_mps([basis_vector(sp, i) for i in desc['occ']])
+    elif kind in ('product', 'product_cyclic'):
+        vecs = [basis_vector(sp, i) for i in desc['occ']]
+        psi = mps.product_mps(vecs) if kind == 'product' else mps.product_mps(vecs, N=N)
         if desc['dtype'] == 'complex128':
             psi = (1j) * psi
     else:
